@@ -360,6 +360,13 @@ var constConsumers = []struct{ name, body string }{
 	{"switch", "switch l case [2,4,6,8+k]: 1 default 0"},
 	{"visit", "l.visit(k,(s,e)->s+e)"},
 	{"fsm", "l.fsm((s,e)->goto(s.state+1)).last().state+k"},
+	// consumers whose behaviour may differ between the lazy and the evaluated state of the shared list:
+	// which of the two an evaluation meets depends on the evaluations before it
+	{"negative-top-or-size", "if k=1 then l.size() else l.top(k-5).sum()"},
+	{"negative-skip-or-index", "if k=1 then l[0] else l.skip(k-5).sum()"},
+	{"top-beyond-or-eval", "if k=1 then l.eval().size() else l.top(k+100).sum()"},
+	{"string-after-failing-string", "if k=0 then l.map(e->if e>4 then throw(\"late\") else e).string() else l.string()+k"},
+	{"string-after-failing-map-string", "if k=0 then {p:l.map(e->if e>4 then throw(\"late\") else e)}.string() else {q:l}.string()+k"},
 }
 
 func constProductPrograms() []progSpec {
